@@ -16,6 +16,7 @@ package util
 // consistent with Less, and to touch nothing else. Len/Less/Swap are under contract below.
 //@ extern sort.Sort(data)
 //@   modifies heap(metricSorter)
+//@   ensures forall r *metricSorter :: as(r, "sort.Interface") != data ==> *r == old(*r)
 //@   ensures forall r *metricSorter :: len(r.peers) == len(old(r.peers)) && elems(r.peers) == elems(old(r.peers)) && (distinct(old(r.peers)) ==> distinct(r.peers)) && isnil(r.peers) == isnil(old(r.peers))
 //@   ensures forall r *metricSorter :: r.m == old(r.m) && r.reverse == old(r.reverse)
 //@   ensures forall r *metricSorter, i int, j int :: 0 <= i && i < j && j < len(r.peers) ==> (r.reverse ==> r.m[r.peers[j]] <= r.m[r.peers[i]]) && (!r.reverse ==> r.m[r.peers[i]] <= r.m[r.peers[j]])
